@@ -69,6 +69,13 @@ fn run_c12(out: &mut Out, tier: &str, rng: &mut Rng) {
     out.rule.push_str(AUTH_NOTE);
 }
 
+fn run_c15(out: &mut Out, tier: &str, rng: &mut Rng) {
+    c15::run(out, tier, rng);
+    // the consumer at the end of the bus: an accepted command reaches the units (heard or silent) of the real authority
+    authgen::run_c01_auth(out, tier, rng);
+    out.rule.push_str("; consumer side: the real NetworkAuthority with hydraulic units whose timeouts are absent / expired / far away handles every accepted motion command (frames to every unit at acceptance and on the following cycles)");
+}
+
 fn run_c06(out: &mut Out, tier: &str, rng: &mut Rng) {
     drv::run_c06(out, tier, rng);
     authgen::run_c06_auth(out, tier, rng);
@@ -108,7 +115,7 @@ fn main() {
         "C20" => authgen::run_c20,
         "C12" => run_c12,
         "C13" => c13::run,
-        "C15" => c15::run,
+        "C15" => run_c15,
         "C16" => c16::run,
         "C17" => c17::run,
         "C18" => c18::run,
